@@ -366,6 +366,68 @@ def confirm(spec, po, label, model):
 # top level
 # ----------------------------------------------------------------------------------------------
 
+def _job_entry(spec, conn):
+    try:
+        r = run_job(spec)
+    except BaseException:
+        r = _dead(spec, traceback.format_exc()[-1500:])
+    try:
+        conn.send(r)
+    finally:
+        conn.close()
+
+
+def run_jobs_hard(jobs, nproc=16):
+    """one forked process per job, at most nproc at a time; a job that overruns its budget by more than 45 s (a solver
+    call that ignores its timeout) is killed and reported as inconclusive"""
+    ctxm = mp.get_context('fork')
+    pending = list(jobs)
+    running = []
+    results = []
+    while pending or running:
+        while pending and len(running) < nproc:
+            spec = pending.pop(0)
+            pc, cc = ctxm.Pipe(duplex=False)
+            p = ctxm.Process(target=_job_entry, args=(spec, cc))
+            p.start()
+            cc.close()
+            running.append((p, pc, spec, time.time()))
+        still = []
+        for p, pc, spec, t0 in running:
+            done = False
+            if pc.poll(0):
+                try:
+                    results.append(pc.recv())
+                except EOFError:
+                    results.append(_dead(spec, 'worker died without a result'))
+                done = True
+                p.join(5)
+            elif not p.is_alive():
+                results.append(_dead(spec, 'worker exited without a result (exit code %s)' % p.exitcode))
+                done = True
+            elif time.time() - t0 > spec.get('deadline_s', 600) + 45:
+                p.kill()
+                p.join(5)
+                results.append(_dead(spec, 'job killed after exceeding its time budget of %ss (a solver call ignored its '
+                                           'timeout)' % spec.get('deadline_s', 600), inconclusive=True))
+                done = True
+            if not done:
+                still.append((p, pc, spec, t0))
+        running = still
+        if running:
+            time.sleep(0.05)
+    return results
+
+
+def _dead(spec, msg, inconclusive=False):
+    r = {'name': spec['name'], 'paths': 0, 'decisions': 0, 'queries': 0, 'solver_s': 0.0, 'obligations': 0, 'discharged': 0,
+         'inconclusive': [], 'violations': [], 'witnesses': 0, 'witness_mismatch': [], 'unsupported': [], 'samples': [],
+         'complete': False, 'harness_errors': [], 'fallback_forks': 0, 'exc_paths': 0, 'vacuous_paths': 0, 'feasible_paths': 0,
+         'wall_s': float(spec.get('deadline_s', 0))}
+    (r['inconclusive'] if inconclusive else r['harness_errors']).append(msg)
+    return r
+
+
 def load_known(prop):
     out = {'known': {}, 'fixed': {}}
     p = os.path.join(VERIF, 'known_findings.jsonl')
@@ -393,11 +455,7 @@ def run_property(prop, jobs, meta, tier, nproc=16):
         m = __import__(mname, fromlist=['x'])
         if hasattr(m, 'preload'):
             m.preload()      # import /repo modules once, before forking the workers
-    ctxm = mp.get_context('fork')
-    results = []
-    with ctxm.Pool(min(nproc, max(1, len(jobs))), maxtasksperchild=4) as pool:
-        for r in pool.imap_unordered(run_job, jobs, chunksize=1):
-            results.append(r)
+    results = run_jobs_hard(jobs, nproc)
     known = load_known(prop)
     agg = {k: 0 for k in ('paths', 'decisions', 'queries', 'obligations', 'discharged', 'witnesses',
                           'fallback_forks', 'exc_paths', 'vacuous_paths', 'feasible_paths')}
